@@ -183,6 +183,7 @@ def as_str(val):
 
 
 _OBJ_TAGS_ALWAYS_TRUE = set()
+TRUTH_FN = {}    # tag -> (term -> z3 Bool): truthiness of objects of that tag, where it is neither always true nor a container's
 
 
 def declare_always_truthy(*tags):
@@ -231,6 +232,8 @@ def as_bool(val):
             core = L.unbox_bool(val.term)
         elif bt == "none":
             return z3.BoolVal(False)
+        elif bt in TRUTH_FN:
+            core = TRUTH_FN[bt](val.term)
         elif bt in _OBJ_TAGS_ALWAYS_TRUE:
             core = z3.BoolVal(True)
         else:
